@@ -450,6 +450,10 @@ pub fn run(cfg: &RunCfg, hc: &'static HistCheck) -> Report {
         ),
     );
     if hc.id == "C02" && !rep.failed() {
+        // the lifetime bound also under concurrency (beyond the stated single-threaded quantifier)
+        crate::checks::concur::run_into(cfg, &crate::checks::concur::C02C, &mut rep);
+    }
+    if hc.id == "C02" && !rep.failed() {
         let n2 = cfg.cases(300_000, 10_000_000);
         rep.absorb("incremental_match_result", explore(cfg, "C02-incr", n2, incremental, |c: &Incremental, st| eval_incremental(c, st)));
     }
@@ -478,6 +482,9 @@ pub fn run(cfg: &RunCfg, hc: &'static HistCheck) -> Report {
 }
 
 pub fn replay(cfg: &RunCfg, hc: &HistCheck, v: &serde_json::Value) -> Result<(), String> {
+    if v["engine"] == "schedule" {
+        return crate::checks::concur::replay(cfg, &crate::checks::concur::C02C, v);
+    }
     if v["engine"] == "incremental_match_result" {
         let c: Incremental = load_case(v)?;
         return eval_incremental(&c, &mut Stats::default());
